@@ -11,6 +11,6 @@ for c in "$@"; do
     q=$(cd /verif && /venv/bin/python -c "import importlib;print(importlib.import_module('props.$(echo $c | tr A-Z a-z)').QUICK_RUNS // $RUNS_DIV)")
     extra="--runs $q"
   fi
-  echo "== seeded $SID vs $c: $(cd /verif && ELIOT_SRC=$S VERIF_SHRINK_S=5 timeout 900 /venv/bin/python check.py $c $extra 2>&1 | grep -E '^(C[0-9]|HARNESS)' | cut -c1-330 | tr '\n' ' ')"
+  echo "== seeded $SID vs $c: $(cd /verif && ELIOT_SRC=$S VERIF_REPLAY_DIR=$S/replays VERIF_SHRINK_S=5 timeout 900 /venv/bin/python check.py $c $extra 2>&1 | grep -E '^(C[0-9]|HARNESS)' | cut -c1-330 | tr '\n' ' ')"
 done
-rm -rf $S; rm -f /verif/replays/*.json
+rm -rf $S
